@@ -277,7 +277,8 @@ class ContinueHarness(object):
             w["what"] = what
             return {"cls": cls, "violation": w}
         m = e.model()
-        return {"cls": cls, "sample": self.witness(m)}
+        w = self.witness(m)
+        return {"cls": cls, "sample": w, "counters": {"validated": validate_plain(w, value, m)}}
 
 
 class LinesHarness(object):
@@ -410,7 +411,9 @@ class LinesHarness(object):
             w = self.witness(m)
             w["what"] = what
             return {"cls": cls, "violation": w}
-        return {"cls": cls, "sample": self.witness(e.model())}
+        m = e.model()
+        w = self.witness(m)
+        return {"cls": cls, "sample": w, "counters": {"validated": validate_plain(w, value, m)}}
 
 
 def make_continue(**kw):
@@ -419,6 +422,27 @@ def make_continue(**kw):
 
 def make_lines(**kw):
     return LinesHarness(**kw)
+
+
+def render_items(items, m):
+    txt = []
+    for it in items:
+        if isinstance(it, str):
+            txt.append(it)
+        elif isinstance(it, SymStr):
+            txt.append(it.concrete(m))
+        else:
+            txt.append(chr(m.eval(it.z, model_completion=True).as_long()))
+    return "".join(txt)
+
+
+def validate_plain(w, items, m):
+    """Translator validation: the real function on the plain witness string must write exactly the
+    text the proxy run wrote (rendered under the same model)."""
+    out, exc = plain_run(w)
+    if exc is not None or out != render_items(items, m):
+        raise AssertionError("proxy run and plain run disagree on %r: %r vs %r" % (w, out, render_items(items, m)))
+    return 1
 
 
 # ----------------------------------------------------------------------------- replay
@@ -559,7 +583,7 @@ def main():
     cov = {
         "states": total.stats.paths,
         "transitions": total.stats.decisions,
-        "traces_validated_against_impl": confirmed,
+        "traces_validated_against_impl": confirmed + total.counters.get("validated", 0),
         "samples": samples[:8],
         "exhaustive": False,
         "functions_encoded": ["shroud.util.WrapperMixin.write_continue", "shroud.util.WrapperMixin.write_lines"],
